@@ -31,6 +31,70 @@ impl Mat2 {
         }
         pivot_row
     }
+    /// controls (C17 D5): last partial block dropped; pivot without break; forward elimination starts one row too low
+    pub fn gauss_blocks<T: RowOps>(&mut self, full_reduce: bool, blocksize: usize, x: &mut T, pivot_cols: &mut Vec<usize>) -> usize {
+        let rows = self.num_rows();
+        let cols = self.num_cols();
+        let mut pivot_row = 0;
+        let num_blocks = cols / blocksize;
+        for sec in 0..num_blocks {
+            let i0 = sec * blocksize;
+            let i1 = std::cmp::min(cols, (sec + 1) * blocksize);
+            for p in i0..i1 {
+                for r0 in pivot_row..rows {
+                    if self.d[r0][p] != 0 {
+                        for r1 in pivot_row + 2..rows {
+                            if self.d[r1][p] != 0 {
+                                self.row_add(pivot_row, r1);
+                                x.row_add(pivot_row, r1);
+                            }
+                        }
+                        pivot_cols.push(p);
+                        pivot_row += 1;
+                    }
+                }
+            }
+        }
+        if full_reduce {
+            let mut sec = num_blocks;
+            while sec != 0 {
+                sec -= 1;
+                let i0 = sec * blocksize;
+                let i1 = std::cmp::min(cols, (sec + 1) * blocksize);
+            }
+        }
+        pivot_row
+    }
+    pub fn build<F: Fn(usize, usize) -> bool>(rows: usize, cols: usize, f: F) -> Mat2 {
+        Mat2 { d: vec![] }
+    }
+    /// control (C17 D6): dimensions not exchanged
+    pub fn transpose(&self) -> Mat2 {
+        Mat2::build(self.num_rows(), self.num_cols(), |i, j| self.d[j][i] == 1)
+    }
+    pub fn gauss(&mut self, full_reduce: bool) -> usize {
+        self.gauss_helper(full_reduce, 3, &mut (), &mut vec![])
+    }
+    /// control (C17 D6): the tested entry uses the pivot column as a row index
+    pub fn nullspace(&self) -> Vec<Vec<u8>> {
+        let mut mat = self.clone();
+        let rank = mat.gauss(true);
+        let n = self.num_cols();
+        let pivot_cols: Vec<usize> = Vec::new();
+        let free_vars: Vec<usize> = Vec::new();
+        let mut basis = Vec::new();
+        for &free_var in &free_vars {
+            let mut vec = vec![0u8; n];
+            vec[free_var] = 1;
+            for (row, &pivot_col) in pivot_cols.iter().enumerate().rev() {
+                if mat.d[pivot_col][free_var] == 1 {
+                    vec[pivot_col] = 1;
+                }
+            }
+            basis.push(vec);
+        }
+        basis
+    }
     /// control: no rank test
     pub fn inverse(&self) -> Option<Mat2> {
         if self.num_rows() != self.num_cols() {
